@@ -2,7 +2,7 @@
 From Coq Require Import Lia ZArith.
 From ChitchatModel Require Import Base SMap Ids Bytes Params NodeState Stream DeltaWire Message Cluster
   FD Chitchat SMap_lemmas Cluster_lemmas Chitchat_lemmas FD_lemmas Inv Compute_lemmas NodeInv
-  Prefix_lemmas Liveness_lemmas World Truth NodeTruth Weak Reach ReachFD Revive MemInv ReachMem FdKnown GuardsGen GuardTie LruBound.
+  Prefix_lemmas Liveness_lemmas World Truth NodeTruth Weak Reach ReachFD Revive MemInv ReachMem FdKnown GuardsGen GuardTie LruBound ReachLru.
 
 (* one classification step: the detector's sets stay disjoint (and sorted), the member is put in
    exactly one of them, nobody else moves, and a member already dead keeps the instant of the
@@ -186,6 +186,16 @@ Proof.
   - intros k v l ops Hk Hp. apply lru_pushed_entry_retained; assumption.
 Qed.
 Print Assumptions C12_memory_is_bounded_and_retains_until_capacity_further_removals.
+
+(* ... and the size bound holds in every reachable state, on every node: over every schedule of the
+   global relation (joins, local writes, GC passes, heartbeats, evaluations with any detector
+   verdicts, message deliveries in any order with loss and duplication) the removed-member memory
+   never holds more than GARBAGE_COLLECTED_NODE_HISTORY_SIZE entries. *)
+Theorem C12_memory_bounded_in_every_reachable_state : forall zc,
+  (forall b c, zc b = Some c -> len c <= len b) -> forall strict g, reachable zc strict g ->
+  forall a n, node_at g a = Some n -> (length (cs_gcn (nd_cs n)) <= gc_history_cap)%nat.
+Proof. intros zc _ strict g Hr a n Hn. exact (reachable_memory_bounded zc strict g Hr a n Hn). Qed.
+Print Assumptions C12_memory_bounded_in_every_reachable_state.
 
 (* ---- the tie of the decision guards to the sources (GuardTie.v; see C14.v for the scheme):
    the model function is the decision tree over the model's guards g_x, and each g_x cuts its
